@@ -150,6 +150,13 @@ func (con *Connection) Read(b []byte) (int, error) {
 		return con.DecryptedRead(b)
 	}
 
+	// One byte at a time as long as the connection is not encrypted: the reader
+	// (net/http) must not read ahead. Whatever follows the request which completes
+	// pair-verify has to be read after the keys became active, and decrypt.
+	if len(b) > 1 {
+		b = b[:1]
+	}
+
 	return con.connection.Read(b)
 }
 
